@@ -19,9 +19,11 @@ RULE = ("case = (class, non-default constructor options, get_config before/"
         "option combinations (thorough: plus the full admissible product of every "
         "class with <= 1600 configurations); "
         "random part: Hypothesis draws every option independently plus a probe "
-        "tensor. Every case is rebuilt through 4 routes plus two routes that "
-        "reuse one config dict / one serialized identifier three times; no "
-        "route may change the dictionary it was given; original and "
+        "tensor. Every case is rebuilt through 4 routes; from_config and the "
+        "legacy-dict lookup share ONE get_config() dictionary, get_quantizer("
+        "dict) and keras deserialize share ONE serialized identifier (order "
+        "alternates with the case hash), and no route may change the "
+        "dictionary it was given; original and "
         "rebuilt quantizers are called on every probe under learning phase 0 "
         "and 1. Non-trivial = at least one non-default option and at least one "
         "call of the original that returned; distinct by hash of the case.")
@@ -45,9 +47,9 @@ ASSUMPTIONS = [
     "<=2); several lost options are reported one by one; raising routes are "
     "reduced to the 1-minimal failing option set instead",
 ]
-BUDGET_S = {"quick": 70, "thorough": 840}
+BUDGET_S = {"quick": 100, "thorough": 840}
 ROUTES = ["from_config", "get_quantizer_dict", "get_quantizer_legacy_dict",
-          "keras_deserialize", "reuse_config", "reuse_serialized"]
+          "keras_deserialize"]
 # options without any effect on outputs (variable plumbing only); symmetric
 # of quantized_hswish cannot matter (hswish >= -0.375 never reaches the
 # negative clip)
@@ -56,7 +58,8 @@ _REQ = (["lattice", "hyp", "registry", "call_first", "config_first",
          "orig_ok", "phase1_differs", "qnoise_zero", "qnoise_via_update",
          "qnoise_via_update_variable", "list1_option", "mutate:trainable",
          "mutate:qdense", "mutate:assign_symmetric", "mutate:assign_alpha",
-         "mutate_after_call", "mutate_before_call",
+         "mutate_after_call", "mutate_before_call", "dict_order_flipped",
+         "dict_order_plain",
          "pts_keepdims"] + O.CLASSES +
         ["opt:%s.%s" % (c, p) for c in O.CLASSES for p, _ in O.SPEC[c]] +
         ["observable:%s.%s" % (c, p) for c in O.CLASSES for p, _ in O.SPEC[c]
@@ -112,56 +115,59 @@ def _changed_keys(before, after, prefix=""):
   return [] if _deep_equal(before, after) else [prefix.rstrip(".") + ":changed"]
 
 
-def _rebuild(route, q, cls):
-  """Returns (q2, None | (kind, exception), changed) where `changed` lists the
-  entries of the dictionary handed to the route that differ afterwards.
+def _rebuild_all(q, cls, flip):
+  """-> {route: (q2, None | (kind, exception), changed)}.
 
-  The `reuse_*` routes rebuild three times from ONE configuration dictionary /
-  ONE serialized identifier (through two different entry points) and return
-  the last object: a config must stay usable after it has been used."""
+  from_config and get_quantizer_legacy_dict rebuild from ONE get_config()
+  dictionary, get_quantizer_dict and keras_deserialize from ONE serialized
+  identifier (a config must stay usable after it has been used once); `flip`
+  decides which route of each pair uses the dictionary first.  `changed` lists
+  the entries of the dictionary that differ after the route has used it."""
   import copy  # pylint: disable=g-import-not-at-top
   import tensorflow as tf  # pylint: disable=g-import-not-at-top
   from qkeras import quantizers as Q  # pylint: disable=g-import-not-at-top
-  from_cfg = route in ("from_config", "get_quantizer_legacy_dict",
-                       "reuse_config")
+  out = {}
+
+  def use(route, given, fn):
+    try:
+      before = copy.deepcopy(given)
+    except Exception:  # pylint: disable=broad-except
+      before = None
+    try:
+      q2 = fn()
+    except Exception as e:  # pylint: disable=broad-except
+      out[route] = (None, ("rebuild_raises", e), [])
+      return
+    out[route] = (q2, None,
+                  [] if before is None else _changed_keys(before, given))
+
+  pair = ["from_config", "get_quantizer_legacy_dict"]
   try:
-    if from_cfg:
-      given = q.get_config()
-      if route != "from_config":
-        given = {"class_name": cls, "config": given}
-    else:
-      given = tf.keras.utils.serialize_keras_object(q)
+    cfg = q.get_config()
   except Exception as e:  # pylint: disable=broad-except
-    return None, ("get_config_raises" if from_cfg else "serialize_raises",
-                  e), []
+    for r in pair:
+      out[r] = (None, ("get_config_raises", e), [])
+  else:
+    for r in (pair[::-1] if flip else pair):
+      if r == "from_config":
+        use(r, cfg, lambda: type(q).from_config(cfg))
+      else:
+        ident = {"class_name": cls, "config": cfg}
+        use(r, ident, lambda: Q.get_quantizer(ident))   # pylint: disable=cell-var-from-loop
+  pair = ["get_quantizer_dict", "keras_deserialize"]
   try:
-    before = copy.deepcopy(given)
-  except Exception:  # pylint: disable=broad-except
-    before = None
-  try:
-    if route == "from_config":
-      q2 = type(q).from_config(given)
-    elif route == "get_quantizer_legacy_dict":
-      q2 = Q.get_quantizer(given)
-    elif route == "get_quantizer_dict":
-      q2 = Q.get_quantizer(given)
-    elif route == "keras_deserialize":
-      q2 = tf.keras.utils.deserialize_keras_object(given,
-                                                   custom_objects=_table())
-    elif route == "reuse_config":
-      type(q).from_config(given["config"])
-      Q.get_quantizer(given)
-      q2 = type(q).from_config(given["config"])
-    elif route == "reuse_serialized":
-      Q.get_quantizer(given)
-      tf.keras.utils.deserialize_keras_object(given, custom_objects=_table())
-      q2 = Q.get_quantizer(given)
-    else:
-      raise ValueError(route)
+    ser = tf.keras.utils.serialize_keras_object(q)
   except Exception as e:  # pylint: disable=broad-except
-    return None, ("rebuild_raises", e), []
-  changed = [] if before is None else _changed_keys(before, given)
-  return q2, None, changed
+    for r in pair:
+      out[r] = (None, ("serialize_raises", e), [])
+  else:
+    for r in (pair[::-1] if flip else pair):
+      if r == "get_quantizer_dict":
+        use(r, ser, lambda: Q.get_quantizer(ser))
+      else:
+        use(r, ser, lambda: tf.keras.utils.deserialize_keras_object(
+            ser, custom_objects=_table()))
+  return out
 
 
 class _Memo(dict):
@@ -209,7 +215,8 @@ class Ev(object):
     try:
       if call_first:
         self._obs = O.observe(self.q, probes, seed)
-      self.rebuilt = {r: _rebuild(r, self.q, cls) for r in ROUTES}
+      self.flip = bool((post or {}).get("flip"))
+      self.rebuilt = _rebuild_all(self.q, cls, self.flip)
       try:
         self.cfg = self.q.get_config()
       except Exception:  # pylint: disable=broad-except
@@ -388,6 +395,7 @@ def _labels(case, st):
       labs.append("qnoise_via_update_variable")
   if case["kw"].get("qnoise_factor") == 0.0:
     labs.append("qnoise_zero")
+  labs.append("dict_order_flipped" if case.get("flip") else "dict_order_plain")
   if case.get("mutate"):
     labs.append("mutate:" + O.mutation_name(case["mutate"]))
     labs.append("mutate_after_call" if case["mutate"].get("after_call")
@@ -427,8 +435,8 @@ def run(ctx):
     orders = [True, False] if both else [i % 2 == 0]
     for cf in orders:
       cases.append(({"cls": c["cls"], "kw": c["kw"], "call_first": cf,
-                     "probes": LATTICE_PROBES, "seed": LATTICE_SEED},
-                    c.get("single")))
+                     "probes": LATTICE_PROBES, "seed": LATTICE_SEED,
+                     "flip": (i // 2) % 2 == 1}, c.get("single")))
     if "qnoise_factor" in c["kw"] and len(c["kw"]) <= 2:
       # the same function reached through update_qnoise_factor(value) and
       # update_qnoise_factor(tf.Variable)
@@ -436,10 +444,10 @@ def run(ctx):
         cases.append(({"cls": c["cls"], "kw": c["kw"],
                        "call_first": (i % 2 == 1) == (mode is True),
                        "probes": LATTICE_PROBES, "seed": LATTICE_SEED,
-                       "qn_update": mode}, None))
+                       "qn_update": mode, "flip": i % 2 == 0}, None))
   # post-construction mutations on the configurations with at most one
   # option (_set_trainable_parameter and attribute assignments on all, QDense
-  # attachment on every other one), _set_trainable_parameter on every fourth
+  # attachment on every third one), _set_trainable_parameter on every fourth
   # two-option configuration
   j = 0
   for c in cfgs:
@@ -452,10 +460,11 @@ def run(ctx):
       j += 1
       if len(c["kw"]) == 2 and (m["kind"] != "trainable" or j % 4):
         continue
-      if m["kind"] == "qdense" and j % 2:
+      if m["kind"] == "qdense" and j % 3:
         continue
       cases.append(({"cls": c["cls"], "kw": c["kw"], "call_first": j % 4 < 2,
                      "probes": LATTICE_PROBES, "seed": LATTICE_SEED,
+                     "flip": j % 2 == 0,
                      "mutate": dict(m, **({"after_call": True} if j % 3 == 0
                                           else {}))}, None))
   for case, single in ctx.shard(cases):
@@ -487,6 +496,8 @@ def run(ctx):
             "call_first": draw(st_.booleans()),
             "probes": [draw(O.probe_strategy()), "r2"],
             "seed": draw(st_.integers(0, 2 ** 16))}
+    if draw(st_.booleans()):
+      case["flip"] = True
     if draw(st_.integers(0, 2)) == 0:
       m = dict(draw(st_.sampled_from(O.mutations(c["cls"]))))
       if draw(st_.booleans()):
@@ -503,7 +514,7 @@ def run(ctx):
              nontrivial=bool(case["kw"]) and st.get("orig_ok", False))
     return [(sc, sig, d) for sc, sig, d, _ in fails]
 
-  n = (480 if ctx.quick else 16000) // ctx.n + 1
+  n = (400 if ctx.quick else 16000) // ctx.n + 1
   core.hyp_run(ctx, case_st(), orc, n, name="c09")
 
 
